@@ -451,7 +451,7 @@ fn parser_history(out: &mut Out, rng: &mut Prng, len: usize) {
                 }
             }};
         }
-        let kind = script.get(step).copied().unwrap_or_else(|| rng.below(14));
+        let kind = script.get(step).copied().unwrap_or_else(|| rng.below(16));
         let (r, ok) = match kind {
             0 => g1!(u8),
             1 => g1!(u32),
@@ -462,6 +462,9 @@ fn parser_history(out: &mut Out, rng: &mut Prng, len: usize) {
             6 => g1!(HashMap<String, u32>),
             7 => g1!(Var<u32>),
             8 => g1!(Vec<String>),
+            // a struct type that is a proper PREFIX of the (yt) struct of the menu, and one that extends it
+            14 => g1!((u8,)),
+            15 => g1!((u8, u64, u8)),
             9 => {
                 gets.push("d".into());
                 match p.get_param() {
